@@ -54,7 +54,8 @@ const (
 
 // MySQL types
 const (
-	TypeNewDecimal Type = iota + 0xf6
+	TypeJSON       Type = 0xf5
+	TypeNewDecimal Type = iota + 0xf5
 	TypeEnum
 	TypeSet
 	TypeTinyBlob
